@@ -158,4 +158,32 @@ example : (clientTry c1 1000 "A".toList "other".toList "60007".toList .authorize
 example : (clientTry c1 1000 "A".toList "srv".toList "60008".toList .authorized).2 = .full := by decide
 example : (clientTry c1 9000 "A".toList "srv".toList "60007".toList .authorized).2 = .full := by decide
 
+/-- **explicit_id_plants_no_route**: a handshake that names a cached session by id (under whatever
+    tag, server and command the connection is for) never adds a binding to the command map — every
+    (key ↦ session) pair present afterwards was present before. So no later ordinary handshake can
+    ride a session through a route such a connection left behind. -/
+theorem explicit_id_plants_no_route (c : Cache) (now : Nat) (sid : Str) (answer : ServerAnswer) (b : Str × Str) :
+    b ∈ (clientById c now sid answer).1.cmdMap → b ∈ c.cmdMap := by
+  unfold clientById Cache.lookupNonExpired
+  cases hg : c.get sid with
+  | none => simp [hg]
+  | some e =>
+    simp only [hg]
+    by_cases hx : e.expired now = true
+    · simp [hx]
+    · simp only [hx, Bool.false_eq_true, if_false]
+      cases answer with
+      | authorized => simp [Cache.store]
+      | sidNotFound =>
+        unfold Cache.invalidate
+        cases c.get e.id with
+        | none => simp
+        | some _ => simp only []; intro h; exact (List.mem_filter.mp h).1
+      | broken =>
+        unfold Cache.invalidate
+        cases c.get e.id with
+        | none => simp
+        | some _ => simp only []; intro h; exact (List.mem_filter.mp h).1
+      | other rc => simp
+
 end Cedar.C07
